@@ -467,6 +467,8 @@ pub fn fingerprint(node: &Node) -> Vec<(String, String)> {
         }
         pays.sort();
         out.push(("payments".to_string(), pays.join(",")));
+        // (preimages the signer was given are not among the things C11 lists: they are part of
+        // fingerprint_full, which C10 compares around refused requests)
         out.push(("velocity".to_string(), format!("{:?}", st.velocity_control)));
         out.push(("fee_velocity".to_string(), format!("{:?}", st.fee_velocity_control)));
     }
@@ -480,6 +482,20 @@ pub fn fingerprint(node: &Node) -> Vec<(String, String)> {
         // (funding inputs, heights, closing outpoints, flags) and its watches
         let entry = vls_persist::model::ChainTrackerEntry::from(&*tr);
         out.push(("tracker_entry".to_string(), serde_json::to_string(&entry).unwrap_or_default()));
+        // ... and read directly, not through the conversions and serde attributes of the persistence
+        // path (a field dropped there would be missing on both sides of the comparison above)
+        let hdr = |h: &lightning_signer::chain::tracker::Headers| format!("{}/{}", h.0.block_hash(), h.1);
+        let hs: Vec<String> = tr.headers.iter().map(|h| hdr(h)).collect();
+        out.push(("tracker_direct".to_string(), format!("tip={} headers=[{}]", hdr(tr.tip()), hs.join(","))));
+        for (key, (listener, slot)) in tr.listeners.iter() {
+            let mut a: Vec<String> = slot.txid_watches.iter().map(|x| x.to_string()).collect();
+            let mut b: Vec<String> = slot.watches.iter().map(|x| x.to_string()).collect();
+            let mut c: Vec<String> = slot.seen.iter().map(|x| x.to_string()).collect();
+            a.sort();
+            b.sort();
+            c.sort();
+            out.push((format!("listener:{}", key), format!("state={:?} txid_watches={:?} watches={:?} seen={:?}", &*listener.get_state(), a, b, c)));
+        }
     }
     let chans: Vec<_> = { node.get_channels().iter().map(|(k, v)| (k.clone(), v.clone())).collect() };
     for (id, slot) in chans {
